@@ -3,7 +3,7 @@
 From Coq Require Import Reals.
 From Flocq Require Import Core IEEE754.Binary IEEE754.Bits.
 From QV Require Import Rt.Prelude Rt.Amount Rt.Quantity Gen.Prefixes Gen.Kernels Amount.F64 Amount.F64Acc
-  Proofs.Laws Proofs.Kernel Proofs.C09 Proofs.Derived Proofs.C14 Proofs.AccF64 Proofs.AccExamples Proofs.AccCatalogue.
+  Proofs.Laws Proofs.Kernel Proofs.C09 Proofs.Derived Proofs.C14 Proofs.AccF64 Proofs.AccExamples Proofs.AccCatalogue Proofs.AccInverse.
 From QV Require Import Macro.Defs Gen.Catalogue Macro.Inst.
 From QV Require Import Props.Accuracy.
 Local Open Scope R_scope.
@@ -130,6 +130,22 @@ Check ACC_C04_operators_are_instances :
   (forall (L Rr : QBase F64) (R0 : QFull F64) x y,
      tmpl_Div_Qty_Qty L Rr R0 x y =
      @derived_nf F64 (fun a b : f64 => Ok (f64_div a b)) R0 (u_scale L (q_unit L x)) (u_scale Rr (q_unit Rr y)) (q_amount L x) (q_amount Rr y)).
+Check ACC_C04_mul_then_div : forall (R0 L0 : QFull F64), QLaws R0 -> QLaws L0 ->
+  (forall w, In w (u_iter R0) -> is_finite 53 1024 (u_scale R0 w) = true /\ B2R 53 1024 (u_scale R0 w) <> 0) ->
+  (forall w, In w (u_iter L0) -> is_finite 53 1024 (u_scale L0 w) = true /\ B2R 53 1024 (u_scale L0 w) <> 0) ->
+  forall su sv a b : f64,
+  is_finite 53 1024 su = true -> is_finite 53 1024 sv = true -> is_finite 53 1024 a = true -> is_finite 53 1024 b = true ->
+  B2R 53 1024 sv <> 0 -> B2R 53 1024 b <> 0 ->
+  forall (w u' : nat),
+  normal (B2R 53 1024 su * B2R 53 1024 sv) -> normal (B2R 53 1024 a * B2R 53 1024 b) ->
+  HasRefUnit_unit_from_scale R0 (f64_mul su sv) = Some w ->
+  normal (B2R 53 1024 (u_scale R0 w) / B2R 53 1024 sv) -> normal (B2R 53 1024 (f64_mul a b) / B2R 53 1024 b) ->
+  HasRefUnit_unit_from_scale L0 (f64_div (u_scale R0 w) sv) = Some u' ->
+  exists z z' d0 d1 d2 d3,
+    @derived_nf F64 (fun x y : f64 => Ok (f64_mul x y)) R0 su sv a b = Ok z /\ q_unit R0 z = w /\
+    @derived_nf F64 (fun x y : f64 => Ok (f64_div x y)) L0 (u_scale R0 (q_unit R0 z)) sv (q_amount R0 z) b = Ok z' /\ q_unit L0 z' = u' /\
+    Rabs d0 <= u64 /\ Rabs d1 <= u64 /\ Rabs d2 <= u64 /\ Rabs d3 <= u64 /\
+    mag_o L0 z' = B2R 53 1024 a * B2R 53 1024 su * (1 + d0) * (1 + d1) * (1 + d2) * (1 + d3).
 Check ACC_C14_affine : forall (S : QBase F64), QLaws S -> forall (q : Qt S) (to : nat) (k c : f64),
   In to (u_iter S) -> is_finite 53 1024 (q_amount S q) = true -> is_finite 53 1024 k = true -> is_finite 53 1024 c = true ->
   normal (B2R 53 1024 (q_amount S q) * B2R 53 1024 k) -> normal (B2R 53 1024 (f64_mul (q_amount S q) k) + B2R 53 1024 c) ->
